@@ -6,6 +6,7 @@ for f in $(git diff --name-only --diff-filter=U); do
   case "$f" in
     lean/Main.lean) python3 tools/resolve_union.py "$f" ;;
     tools/hv/common.py) git checkout --ours "$f" ;;
+    evidence/*) git checkout --ours "$f" ;;
     *) echo "UNRESOLVED: $f"; exit 1 ;;
   esac
 done
